@@ -1,11 +1,21 @@
 (** C14 - Host names convert between text and wire form without loss.
 
-    Proved so far: the conversion is total; what it appends for an accepted text is between 1 and
-    253 bytes and the text itself is at most 253 bytes.  The label-by-label statement
-    ([C14_full_statement], DESIGN.md) and the read-back through set_raw_name/name() are decided each run
-    by an exhaustive sweep of short names plus boundary lengths against an independent splitter. *)
+    Proved, for every byte string as text and every optional default zone (no bound on anything):
+    - soundness (C14_from_str_sound): whatever the conversion accepts is a list of labels - non-empty,
+      at most 62 bytes, without a dot or a byte above 128 - joined by dots, optionally followed by a
+      final dot (or the single text "."), and what is appended is exactly each label prefixed by its
+      length, then the root byte, or the default zone when the text has no final dot; at most 253 bytes;
+    - acceptance (C14_accepts_open, C14_accepts_closed): every such label list whose encoding fits
+      253 bytes is accepted, with or without the final dot, and encoded as above;
+    - rejections (the C14_rejects theorems): an empty interior label, a leading dot, a run of 63 bytes without a
+      dot, a text of more than 253 bytes are errors;
+    - round trip (C14_ldh_roundtrip): for letter-digit-hyphen-underscore labels the produced wire name
+      is a name of the parser's policy with exactly those labels, and printing it gives the labels
+      joined by dots; C14_from_str_total: no Panic outcome.
+    Not covered by a theorem: the read-back through a record of a packet (set_raw_name then name()),
+    decided each run by an exhaustive sweep of short names plus boundary lengths. *)
 From DV Require Import Model.Base Model.Parser Model.Header Model.Readers Model.Uncompress Model.Mutate
-  Model.Gen Model.Text Proofs.Hoare Proofs.SynthTotal.
+  Model.Gen Model.Text Spec.NameSpec Spec.RecordSpec Proofs.Hoare Proofs.SynthTotal Proofs.NameText.
 
 Theorem C14_from_str_total : forall name zone, nopanic (raw_name_from_str name zone).
 Proof. exact raw_name_from_str_total. Qed.
@@ -16,6 +26,69 @@ Theorem C14_from_str_len : forall raw name zone w,
   exists enc, w = raw ++ enc /\ 1 <= length enc <= 253 /\ length name <= 253.
 Proof. exact copy_raw_name_from_str_len. Qed.
 Print Assumptions C14_from_str_len.
+
+Theorem C14_from_str_sound : forall raw name z w,
+  copy_raw_name_from_str raw name z = Ok w ->
+  exists ls, Forall tlabel_ok ls /\
+    ((ls <> [] /\ name = dotted ls /\ w = raw ++ labels_flat ls ++ zone_or_root z /\
+      length (labels_flat ls ++ zone_or_root z) <= 253)
+     \/ ((name = dots ls \/ (name = [46%N] /\ ls = [])) /\ w = raw ++ wire_of_labels ls /\
+         length (wire_of_labels ls) <= 253)).
+Proof. exact from_str_sound. Qed.
+Print Assumptions C14_from_str_sound.
+
+Theorem C14_accepts_open : forall raw ls last z,
+  Forall tlabel_ok ls -> tlabel_ok last ->
+  length (labels_flat (ls ++ [last]) ++ zone_or_root z) <= 253 ->
+  copy_raw_name_from_str raw (dotted (ls ++ [last])) z = Ok (raw ++ labels_flat (ls ++ [last]) ++ zone_or_root z).
+Proof. exact from_str_accepts_open. Qed.
+Print Assumptions C14_accepts_open.
+
+Theorem C14_accepts_closed : forall raw ls z,
+  Forall tlabel_ok ls -> length (wire_of_labels ls) <= 253 ->
+  copy_raw_name_from_str raw (dots ls) z = Ok (raw ++ wire_of_labels ls).
+Proof. exact from_str_accepts_closed. Qed.
+Print Assumptions C14_accepts_closed.
+
+Theorem C14_rejects_empty_label : forall raw a b z,
+  copy_raw_name_from_str raw (a ++ 46%N :: 46%N :: b) z = Err InvalidName.
+Proof. exact from_str_rejects_empty_label. Qed.
+Print Assumptions C14_rejects_empty_label.
+
+Theorem C14_rejects_leading_dot : forall raw b z, b <> [] ->
+  copy_raw_name_from_str raw (46%N :: b) z = Err InvalidName.
+Proof. exact from_str_rejects_leading_dot. Qed.
+Print Assumptions C14_rejects_leading_dot.
+
+Theorem C14_rejects_long_label : forall raw l b z,
+  forallb (fun c => negb (c =? 46)%N) l = true -> 63 <= length l ->
+  copy_raw_name_from_str raw (l ++ b) z = Err InvalidName.
+Proof. exact from_str_rejects_long_label. Qed.
+Print Assumptions C14_rejects_long_label.
+
+Theorem C14_rejects_long_label_after_dot : forall raw a l b z, a <> [] ->
+  forallb text_char_ok a = true -> length a <= 62 ->
+  forallb (fun c => negb (c =? 46)%N) l = true -> 63 <= length l ->
+  copy_raw_name_from_str raw (a ++ 46%N :: l ++ b) z = Err InvalidName.
+Proof. exact from_str_rejects_long_label_after_dot. Qed.
+Print Assumptions C14_rejects_long_label_after_dot.
+
+Theorem C14_rejects_long_text : forall raw name z, 253 < length name ->
+  copy_raw_name_from_str raw name z = Err InvalidName.
+Proof. exact from_str_rejects_long_text. Qed.
+Print Assumptions C14_rejects_long_text.
+
+Theorem C14_ldh_roundtrip : forall ls, Forall ldh_label ls -> length (wire_of_labels ls) <= 253 ->
+  raw_name_from_str (dots ls) None = Ok (wire_of_labels ls) /\
+  (ls <> [] -> raw_name_from_str (dotted ls) None = Ok (wire_of_labels ls)) /\
+  raw_name_to_str (wire_of_labels ls) 0 = Ok (dotted ls) /\
+  cname_l (wire_of_labels ls) 0 ls (length (wire_of_labels ls)).
+Proof. exact ldh_roundtrip. Qed.
+Print Assumptions C14_ldh_roundtrip.
+
+(** Non-vacuity of the hypotheses: "www.a" is a list of two letter-digit-hyphen labels. *)
+Example C14_sample_labels : Forall ldh_label [[119;119;119]; [97]]%N /\ length (wire_of_labels [[119;119;119]; [97]]%N) <= 253.
+Proof. split; [repeat constructor; try discriminate; cbn; lia|cbn; lia]. Qed.
 
 Example C14_sample : raw_name_from_str [119;119;119;46;97]%N (Some [3;99;111;109;0]%N) = Ok [3;119;119;119;1;97;3;99;111;109;0]%N.
 Proof. vm_compute. reflexivity. Qed.
